@@ -13,6 +13,7 @@ RULE = ("cases = (complete dataset, incomplete dataset) x scheme (S1 presets, S2
 ASSUMPTIONS = ["reference model vf/ref.py for well-formedness", "refusal = ScoringSchemeNotHandledException or PickAPerm's "
                "dedicated exception"]
 SUMMARY_KEYS = ["predicate_calls", "pred_true", "pred_false", "refusals", "acceptances_incomplete"]
+THOROUGH_SCALE = 4
 CRASH_IS_VIOLATION = False
 TIMEOUT = {"quick": 900, "thorough": 5400}
 CONFIGS = ["Borda", "BordaBucket", "PickAPerm", "Copeland", "KwikSort", "BioConsert", "BioCo", "BioConsert[Borda]",
